@@ -143,6 +143,57 @@ def exec_real(case, part):
                 part.violation({k: v for k, v in case.items() if not k.startswith("_")},
                                "marginal ln-likelihoods differ from the values of the rows evaluated alone (or are out of input order)",
                                expected=want, observed=out)
+        elif case["api"] == "mll_units_history":
+            # call history on one TheJoker / one file NAME: the file is overwritten by the same physical library expressed
+            # in other column units between the calls
+            import astropy.units as u
+
+            path2 = os.path.join(scratch, f"lib-{os.getpid()}.hdf5")
+            outs = []
+            for k in range(3):
+                lib = pb.make_samples(ROWS)
+                if k == 1:
+                    lib["P"] = lib["P"].to(u.yr)
+                    lib["omega"] = lib["omega"].to(u.deg)
+                    lib["s"] = lib["s"].to(u.m / u.s)
+                lib.write(path2, overwrite=True)
+                outs.append(np.array(joker.marginal_ln_likelihood(data, path2, n_batches=case["n_batches"])))
+            os.unlink(path2)
+            part.record({k: v for k, v in case.items() if not k.startswith("_")}, outcome=(tuple(outs[1].tolist()),), nontrivial=True)
+            for k, out in enumerate(outs):
+                if not np.allclose(out, want, rtol=1e-9, atol=1e-9):
+                    part.violation({k2: v for k2, v in case.items() if not k2.startswith("_")},
+                                   f"call {k} of a history on one file name (library re-written in other units in between) gives values that differ "
+                                   "from the rows' own values", expected=want, observed=out)
+                    break
+        elif case["api"] == "rej_rand":
+            import astropy.units as u
+
+            lib = pb.make_samples(ROWS)
+            lib["ln_prior"] = -np.arange(len(ROWS), dtype=float) - 100.0
+            if case["path"] == "file":
+                lib.write(path, overwrite=True)
+                ps = path
+            else:
+                ps = lib
+            res = joker.rejection_sample(data, ps, n_batches=case["n_batches"], randomize_prior_order=True, return_logprobs=True)
+            P = np.atleast_1d(res["P"].to_value(u.day))
+            acc = [int(np.argmin(np.abs(ROWS[:, 0] - p))) for p in P]
+            ll = np.asarray(res["ln_likelihood"], dtype=float)
+            lp = np.asarray(res["ln_prior"], dtype=float)
+            part.record({k: v for k, v in case.items() if not k.startswith("_")}, outcome=(tuple(acc),), nontrivial=len(acc) > 1)
+            for k, i in enumerate(acc):
+                if ll[k] != want[i] or lp[k] != -i - 100.0:
+                    part.violation({k2: v for k2, v in case.items() if not k2.startswith("_")},
+                                   f"randomised order: returned row {k} is library row {i} but carries ln_likelihood {ll[k]} / ln_prior {lp[k]} "
+                                   "(values are not in input order)", expected=(want[i], -i - 100.0), observed=(ll[k], lp[k]))
+                    break
+            # identical accepted list on every file-path variant for equal seeds
+            key = case["config"]
+            first = _RAND_ACC.setdefault(key, acc)
+            if acc != first:
+                part.violation({k2: v for k2, v in case.items() if not k2.startswith("_")},
+                               "accepted set with equal seeds (randomised order) differs between execution paths", expected=first, observed=acc)
         else:
             res = joker.rejection_sample(data, ps, n_batches=case["n_batches"], in_memory=case["path"] == "inmem")
             import astropy.units as u
@@ -164,6 +215,7 @@ def exec_real(case, part):
 
 
 _BASE = {}
+_RAND_ACC = {}
 
 
 def exec_stub(case, part):
@@ -231,11 +283,15 @@ def build(quick):
     real = []
     N = len(ROWS)
     for cfg in CONFIGS:
-        for api in ("mll", "rej"):
+        for api in ("mll", "rej", "rej_rand", "mll_units_history"):
             for path in ("inmem", "obj", "file"):
                 nbs = [None] + list(range(1, N + 3))
                 if path == "inmem":
                     nbs = [None]
+                if api in ("rej_rand", "mll_units_history"):
+                    if path == "inmem" or (api == "mll_units_history" and path == "obj"):
+                        continue
+                    nbs = [None, 2, N + 1]
                 for nb in nbs:
                     real.append(dict(kind="real", config=cfg, api=api, path=path, n_batches=nb, pool=["serial"]))
         # ModelPool x real kernel: a slice (each chunk rebuilds a helper ~1 s)
